@@ -647,7 +647,7 @@ func (c *Collection) withNewCas(fn func(txn *sql.Tx, newCas CAS) (*event, error)
 		return c.setLastCas(txn, newCas)
 	})
 	if err == nil && e != nil {
-		verifPoint("post.before", e.key, e.cas)
+		verifPoint("post.before", c.GetCollectionID(), e.key, e.cas)
 		c.postNewEvent(e)
 	}
 	return err
